@@ -11,6 +11,7 @@ package errorx
 // placed after a recorded error (it must not erase it) and before any (Load must stay nil).
 
 import (
+	"errors"
 	"fmt"
 	"strconv"
 	"sync"
@@ -23,12 +24,131 @@ type c10AeErr struct{ k int }
 
 func (e c10AeErr) Error() string { return "E" + strconv.Itoa(e.k) }
 
+// error VALUE classes (the codes of the mr harness, plus non-zero counterparts): a zero VALUE of a dynamic type is
+// still a non-nil error and must be recorded.  atomic.Value accepts one dynamic type per cell, so every instance of a
+// section draws its codes from ONE family (same concrete type).
+type c10AeZero struct{}
+
+func (c10AeZero) Error() string { return "zero-struct" }
+
+type c10AeCode int
+
+func (c c10AeCode) Error() string { return "code" }
+
+type c10AeText string
+
+func (c c10AeText) Error() string { return "text" }
+
+type c10AePtr struct{ k int }
+
+func (p *c10AePtr) Error() string { return "ptr" }
+
+type c10AeSlice []error
+
+func (c10AeSlice) Error() string { return "slice" }
+
+var (
+	c10AePtr105 = &c10AePtr{}
+	c10AePtr125 = &c10AePtr{k: 125}
+	c10AeNew131 = errors.New("")
+	c10AeNew132 = errors.New("sentinel")
+)
+
+// families of codes with the same dynamic type
+var c10AeFamilies = [][]int{
+	{1, 2, 3, 4, 5, 6, 7, 8, 9, 108}, // struct value; 108 = all fields zero
+	{101},                            // empty struct
+	{102, 122},                       // int-coded, 102 = code 0
+	{103, 123},                       // string-coded, 103 = ""
+	{104, 105, 125},                  // pointer, 104 = typed nil pointer
+	{106, 136},                       // *fmt.wrapError
+	{107, 127},                       // slice-typed (uncomparable), 107 = nil slice
+	{131, 132},                       // errors.New values
+}
+
+func c10AeMk(k int) error {
+	switch k {
+	case 0:
+		return nil
+	case 101:
+		return c10AeZero{}
+	case 102:
+		return c10AeCode(0)
+	case 122:
+		return c10AeCode(22)
+	case 103:
+		return c10AeText("")
+	case 123:
+		return c10AeText("x")
+	case 104:
+		return (*c10AePtr)(nil)
+	case 105:
+		return c10AePtr105
+	case 125:
+		return c10AePtr125
+	case 106, 136:
+		return fmt.Errorf("wrapped: %w", c10AeErr{k})
+	case 107:
+		return c10AeSlice(nil)
+	case 127:
+		return c10AeSlice{c10AeErr{1}}
+	case 108:
+		return c10AeErr{0}
+	case 131:
+		return c10AeNew131
+	case 132:
+		return c10AeNew132
+	}
+	return c10AeErr{k}
+}
+
 func c10AeName(err error) string {
 	if err == nil {
 		return "nil"
 	}
-	if e, ok := err.(c10AeErr); ok {
+	switch e := err.(type) {
+	case c10AeZero:
+		return "E101"
+	case c10AeCode:
+		if e == 0 {
+			return "E102"
+		}
+		return "E122"
+	case c10AeText:
+		if e == "" {
+			return "E103"
+		}
+		return "E123"
+	case *c10AePtr:
+		switch {
+		case e == nil:
+			return "E104"
+		case e == c10AePtr105:
+			return "E105"
+		case e == c10AePtr125:
+			return "E125"
+		}
+		return "other"
+	case c10AeSlice:
+		if e == nil {
+			return "E107"
+		}
+		return "E127"
+	case c10AeErr:
+		if e.k == 0 {
+			return "E108"
+		}
 		return "E" + strconv.Itoa(e.k)
+	}
+	switch err {
+	case c10AeNew131:
+		return "E131"
+	case c10AeNew132:
+		return "E132"
+	}
+	var w c10AeErr
+	if errors.As(err, &w) {
+		return "E" + strconv.Itoa(w.k)
 	}
 	return "other"
 }
@@ -36,19 +156,25 @@ func c10AeName(err error) string {
 func c10AeGen(r *verifh.Rng) []verifh.Section {
 	var secs []verifh.Section
 	insts := []string{"a", "b", "c"}
-	for i := verifh.Scale(30, 600); i > 0; i-- {
+	for i := verifh.Scale(60, 900); i > 0; i-- {
+		// one family of dynamic types per instance and section; every family is used in turn
+		fam := map[string][]int{}
+		for j, in := range insts {
+			fam[in] = c10AeFamilies[(i+j*3+r.Intn(2))%len(c10AeFamilies)]
+		}
+		code := func(in string) int { f := fam[in]; return f[r.Intn(len(f))] }
 		var ops []string
 		for j := r.Range(3, 14); j > 0; j-- {
 			in := insts[r.Intn(len(insts))]
 			switch r.Intn(7) {
 			case 0, 1:
-				ops = append(ops, fmt.Sprintf("ae set %s %d", in, r.Range(1, 9)))
+				ops = append(ops, fmt.Sprintf("ae set %s %d", in, code(in)))
 			case 2:
 				ops = append(ops, fmt.Sprintf("ae set %s 0", in))
 			case 3:
 				op := "ae cset " + in
 				for k := r.Range(2, 5); k > 0; k-- {
-					op += " " + strconv.Itoa(r.Range(1, 9))
+					op += " " + strconv.Itoa(code(in))
 				}
 				ops = append(ops, op)
 			default:
@@ -85,11 +211,7 @@ func TestVerifC10AE(t *testing.T) {
 				if len(op) != 4 {
 					return "bad-op"
 				}
-				if k := verifh.Atoi(op[3]); k == 0 {
-					c.Set(nil)
-				} else {
-					c.Set(c10AeErr{k})
-				}
+				c.Set(c10AeMk(verifh.Atoi(op[3])))
 				return "ok"
 			case "load":
 				return c10AeName(c.Load())
@@ -100,7 +222,7 @@ func TestVerifC10AE(t *testing.T) {
 					wg.Add(1)
 					go func() {
 						defer wg.Done()
-						c.Set(c10AeErr{k})
+						c.Set(c10AeMk(k))
 					}()
 				}
 				wg.Wait()
